@@ -47,6 +47,7 @@ def worker_env(extra=None):
     env["PYTHONPATH"] = ":".join([VERIF, os.path.join(VERIF, ".deps"), "/repo"])
     env.setdefault("PYTHONHASHSEED", "0")
     env["PYTHONWARNINGS"] = "ignore"
+    env["PYTHONDONTWRITEBYTECODE"] = "1"
     env["GASOL_VERIF"] = "1"
     if extra:
         env.update(extra)
